@@ -658,6 +658,23 @@ func (c *Checker) checkFootprint(x *callCtx, diffs []diffSlot) {
 	for _, a := range call.Args {
 		argSet[string(a)] = true
 	}
+	// the nonces the call names (minimal big-endian form, as in the key): a numeric argument read the way the library
+	// reads it (low 64 bits), the metadata nonce of an argument that is an encoded token (the payload of a destination-side
+	// transfer), the nonce an NFT create returns
+	nonceSet := map[string]bool{}
+	for _, a := range call.Args {
+		nonceSet[string(NonceBytes(U64(a)))] = true
+		if len(a) > 0 {
+			if ti := DecodeToken(a); !ti.Err && ti.Tok.TokenMetaData != nil {
+				nonceSet[string(NonceBytes(ti.Tok.TokenMetaData.Nonce))] = true
+			}
+		}
+	}
+	if call.Fn == FnNFTCreate && x.res != nil && x.res.Out != nil {
+		for _, r := range x.res.Out.ReturnData {
+			nonceSet[string(NonceBytes(U64(r)))] = true
+		}
+	}
 	for _, d := range diffs {
 		okAcct := bytes.Equal(d.addr, call.Caller) || bytes.Equal(d.addr, call.Rcv) || bytes.Equal(d.addr, SystemAccount) || argSet[string(d.addr)]
 		if !okAcct {
@@ -670,14 +687,14 @@ func (c *Checker) checkFootprint(x *callCtx, diffs []diffSlot) {
 			}
 			continue
 		}
-		if acctFn || !c.keyInFootprint(d.key, argSet) {
-			c.report(x, "C05", "storage key %x of account %x is outside the footprint of %s", d.key, d.addr, call.Fn)
+		if acctFn || !c.keyInFootprint(d.key, argSet, nonceSet) {
+			c.report(x, "C05", "storage key %x of account %x is outside the footprint of %s (a token entry must be that of a token id AND a nonce the call names)", d.key, d.addr, call.Fn)
 		}
 	}
 }
 
 // keyInFootprint: token entry / role key / nonce key of a token id that occurs among the arguments.
-func (c *Checker) keyInFootprint(key string, argSet map[string]bool) bool {
+func (c *Checker) keyInFootprint(key string, argSet, nonceSet map[string]bool) bool {
 	switch {
 	case strings.HasPrefix(key, RolePrefix):
 		return argSet[key[len(RolePrefix):]]
@@ -686,7 +703,7 @@ func (c *Checker) keyInFootprint(key string, argSet map[string]bool) bool {
 	case strings.HasPrefix(key, EsdtPrefix):
 		rest := key[len(EsdtPrefix):]
 		for i := 0; i <= len(rest); i++ {
-			if validNonceSuffix(rest[i:]) && argSet[rest[:i]] {
+			if validNonceSuffix(rest[i:]) && argSet[rest[:i]] && (i == len(rest) || nonceSet[rest[i:]]) {
 				return true
 			}
 		}
